@@ -19,6 +19,7 @@ PARSED_FILES = [
     b"[A]\nx=1\n[B]\ny=2\n",                 # no group-less key: the section list does not start with the group-less one
     b"# only a comment\n[S1]\nk=v\n[A]\n",     # ... and a section without keys at the end
     b"x=1\ny=2\nx=3\n[A]\nx=4\nz=5\nx=6\n[B]\nw=7\nw=8\n",    # keys defined more than once in their section (the first definition is the visible one)
+    b"[A] # about A\nx=1 # one\n# before y\n# second line\ny=2\n[B]   # about B\nw=3\n",   # comments behind section headers, comment blocks
 ]
 
 
